@@ -28,7 +28,8 @@ RULE = (
     "to the direct tape gives equal reference results. Autograph: the functions in pv/corpus/c42_autograph.py (Python "
     "for/while/if/nested calls) captured with autograph=True vs executed as plain Python, over an argument grid. Every case runs "
     "between qp.capture.enable()/disable() in try/finally and first asserts that capture is disabled (leak = harness error). "
-    "Non-trivial: >= 2 control-flow constructs executed with >= 3 operations recorded."
+    "Two fixed RY rotations put the control wires in superposition. Non-trivial: >= 2 control-flow constructs executed with >= 3 "
+    "generated operations recorded."
 )
 ASSUMPTIONS = [
     "jax x64 is enabled by the launcher (JAX_ENABLE_X64=1).",
@@ -36,7 +37,7 @@ ASSUMPTIONS = [
     "predicates are classical values.",
     "Only transforms that expose a plxpr implementation in this tree are compared (currently decompose).",
 ]
-BUDGET = {"quick": {"examples": 220}, "thorough": {"examples": 12000, "shards": 16}}
+BUDGET = {"quick": {"examples": 110}, "thorough": {"examples": 12000, "shards": 16}}
 SHRINK_LISTS = ("body", "true", "false", "meas", "subs")
 
 G1P = ["RX", "RY", "RZ", "PhaseShift"]
@@ -97,7 +98,7 @@ def block(draw, depth, nsubs, max_len=3):
                         "body": draw(block(depth - 1, nsubs, 2))})
         elif k == "cond":
             ret = draw(st.booleans())
-            ne = draw(st.integers(0, 2))
+            ne = draw(st.sampled_from([0, 1, 1, 2]))
             out.append({"k": "cond", "pred": draw(pred()), "true": draw(block(depth - 1, nsubs, 2)),
                         "elifs": [{"pred": draw(pred()), "body": draw(block(depth - 1, nsubs, 2)), "ret": draw(fexpr())} for _ in range(ne)],
                         "false": draw(block(depth - 1, nsubs, 2)) if (ret or draw(st.booleans())) else None,
@@ -105,7 +106,7 @@ def block(draw, depth, nsubs, max_len=3):
         elif k == "adjoint":
             out.append({"k": "adjoint", "lazy": draw(st.booleans()), "closure": draw(st.booleans()), "body": draw(block(depth - 1, nsubs, 3))})
         elif k == "ctrl":
-            out.append({"k": "ctrl", "cv": draw(st.booleans()), "closure": draw(st.booleans()), "dyn": draw(st.sampled_from([False] * 6 + [True])),
+            out.append({"k": "ctrl", "cv": draw(st.sampled_from([True, False, False])), "closure": draw(st.booleans()), "dyn": draw(st.sampled_from([False] * 6 + [True])),
                         "body": draw(block(depth - 1, nsubs, 2))})
         else:
             out.append({"k": "call", "sub": draw(st.integers(0, nsubs - 1)), "style": draw(st.sampled_from(["plain", "capsub", "Subroutine"])),
@@ -432,7 +433,7 @@ def _direct(spec, args, stats=None):
     import pennylane as qp
 
     it = Interp(spec, "py", stats)
-    ops = []
+    ops = [qp.RY(0.9, wires=spec["n"]), qp.RY(1.3, wires=spec["n"] + 1)]     # control wires in superposition (see _qfunc)
     it.run(spec["body"], list(args["f"]), list(args["i"]), ops)
     meas = it.measurements(list(args["f"]), list(args["i"]))
     return qp.tape.QuantumScript(ops, meas)
@@ -442,8 +443,12 @@ def _qfunc(spec):
     nf = len(spec["args"]["f"])
 
     def f(*a):
+        import pennylane as qp
+
         it = Interp(spec, "cap")
         fv, iv = list(a[:nf]), list(a[nf:])
+        qp.RY(0.9, wires=spec["n"])
+        qp.RY(1.3, wires=spec["n"] + 1)
         it.run(spec["body"], fv, iv, None)
         return tuple(it.measurements(fv, iv))
 
@@ -645,7 +650,7 @@ def check(spec):
     nops = len(direct.operations)
     labels = sorted(stats.kinds) + ["ops:" + ("0" if nops == 0 else "1-5" if nops <= 5 else "6-20" if nops <= 20 else ">20")] + \
              ["mp:" + m["mp"] for m in spec["meas"]]
-    return Result(stats.constructs >= 2 and nops >= 3, labels=labels)
+    return Result(stats.constructs >= 2 and nops >= 5, labels=labels)
 
 
 def _check_autograph(spec):
@@ -680,5 +685,5 @@ def selftest():
                          {"k": "op", "g": "CNOT", "w": {"c": 0, "t": []}, "w2": {"c": 0, "t": []}, "a": {"c": 0, "t": [], "it": []}, "b": None, "c": None}]}]}
     t = _direct(spec, spec["args"])
     names = [(op.name, [int(w) for w in op.wires]) for op in t.operations]
-    assert names == [("RX", [0]), ("RX", [1]), ("Adjoint(CNOT)", [0, 1]), ("Adjoint(S)", [0])], names
-    assert abs(float(t.operations[0].data[0]) - 1.0) < 1e-12
+    assert names[2:] == [("RX", [0]), ("RX", [1]), ("Adjoint(CNOT)", [0, 1]), ("Adjoint(S)", [0])], names
+    assert abs(float(t.operations[2].data[0]) - 1.0) < 1e-12
